@@ -2,9 +2,16 @@
 (* Model checking of Backups.tla: every geometry up to MaxG groups (no sparse_super / sparse_super / sparse_super2 with
    0, 1, 2 backups) x meta_bg x descriptors-per-block, every sequence of at most MaxSteps tool runs (resize to a boundary
    group count, 64bit conversion, tune2fs feature / UUID / inode-size change, e2fsck -fy after a primary-only change or
-   after the primary descriptors were damaged), then DestroyPrimary and RecoverFrom(every prescribed location).      *)
+   after the primary descriptors were damaged), then DestroyPrimary and RecoverFrom(every prescribed location) /
+   RecoverPlain (e2fsck's own search, for every <<block size, blocks per group>> of Geos).                           *)
 EXTENDS Backups
-CONSTANTS Dpbs, ResizeSet, MaxSteps
+CONSTANTS Dpbs, ResizeSet, MaxSteps,
+          Geos            \* set of <<block size, blocks per group>> pairs mke2fs may be asked for
+\* every block size of the format with its default group size + a non-default group size at both ends
+AllGeos == {<<bs, DefaultBpg(bs)>> : bs \in BlockSizes} \cup {<<MinBlockSize, 256>>, <<MaxBlockSize, 256>>}
+OneGeo == {<<MinBlockSize, DefaultBpg(MinBlockSize)>>}                         \* the geometry dimension switched off (1k blocks, 8192 per group)
+GeoSet == Geos
+MkGeo(p) == [bs |-> p[1], bpg |-> p[2], first |-> FirstData(p[1])]
 Kinds == {"none", "sparse", "ss2_0", "ss2_1", "ss2_2"}
 Nb(kind) == CASE kind = "ss2_0" -> 0 [] kind = "ss2_1" -> 1 [] kind = "ss2_2" -> 2 [] OTHER -> -1
 MkSb(gdc, dpb, kind, mb) ==
@@ -15,8 +22,8 @@ GdSane == \A i \in 1..Len(prim.gd) : prim.gd[i] # <<>>
 Targets == (ResizeSet \cup {Cur.gdc - 1, Cur.gdc + 1, Cur.dpb, Cur.dpb + 1, Cur.dpb + 2, 2 * Cur.dpb - 1, 2 * Cur.dpb + 1}) \cap (1..MaxG)
 Init == Blank
 DoMkfs == /\ rec = "blank"
-          /\ \E gdc \in 1..MaxG, dpb \in Dpbs, kind \in Kinds, mb \in BOOLEAN :
-                LET s == MkSb(gdc, dpb, kind, mb) IN Mkfs(s, MkGd(s, 0))
+          /\ \E gdc \in 1..MaxG, dpb \in Dpbs, kind \in Kinds, mb \in BOOLEAN, p \in GeoSet :
+                LET s == MkSb(gdc, dpb, kind, mb) IN Mkfs(s, MkGd(s, 0), MkGeo(p))
 DoResize == \E n \in Targets : n # Cur.gdc /\
                LET s == [Cur EXCEPT !.gdc = n, !.blocks = n, !.inodes = n, !.bk = IF Cur.ss2 THEN ResizeBk(Cur.bk, Cur.gdc, n) ELSE Cur.bk]
                IN Resize(s, MkGd(s, steps + 1))
@@ -35,13 +42,14 @@ Next == \/ DoMkfs
         \/ Alive /\ steps < MaxSteps /\ DoFsck
         \/ DestroyPrimary
         \/ \E g \in 1..MaxG : RecoverFrom(g)
+        \/ RecoverPlain
 Spec == Init /\ [][Next]_vars
 ASSUME BackupsClosedForm
-\* block arithmetic (first_data_block 0 / 1): the block `e2fsck -b` is given for group g, and the block get_backup_sb
-\* (e2fsck/util.c) probes for a listed group, are the first block of that group as ext2fs_group_first_block2 defines it
-FirstDataBlock(bs) == IF bs = 1024 THEN 1 ELSE 0                  \* what mke2fs produces without bigalloc
-GroupFirst(bs, bpg, g) == FirstDataBlock(bs) + g * bpg
-Probe(bs, bpg, g) == g * bpg + (IF bs = 1024 THEN 1 ELSE 0)       \* "superblock = grp * this_bpg; if (blocksize == 1024) superblock++"
-ASSUME \A bs \in {1024, 2048, 4096}, bpg \in {256, 512, 1024, 8192, 16384, 32768}, g \in 1..60 :
-          bpg <= 8 * bs => Probe(bs, bpg, g) = GroupFirst(bs, bpg, g)
+\* block arithmetic: the block `e2fsck -b` is given for group g, and the position get_backup_sb probes for a listed group
+\* once it uses the filesystem's own block and group size, are the first block of that group (ext2fs_group_first_block2),
+\* for every block size of the format; the default group size is ext2fs_initialize's (Geometry!Compute: Min(bs * 8, 65528))
+ASSUME \A bs \in BlockSizes : /\ DefaultBpg(bs) = Min(bs * 8, 65528) /\ DefaultBpg(bs) % 8 = 0
+                              /\ \A bpg \in {256, DefaultBpg(bs)}, g \in 1..60 :
+                                    ProbeAt(bs, bpg, g) = GroupAt(bs, bpg, FirstData(bs), g)
+ASSUME BlockSizes = {1024, 2048, 4096, 8192, 16384, 32768, 65536} /\ BoundaryBlockSizes = {1024, 4096, 8192, 65536}
 =============================================================================
